@@ -343,7 +343,7 @@ def model_cases(cases, xcheck=0):
         for i in range(0, len(ls), 120):
             b = ["CASE %s" % cid]
             for pth, content in files.items():
-                b.append("FILE %s %s" % (pth.encode().hex(), content.hex() or "-"))
+                b.append("FILE %s %s" % ((pth if isinstance(pth, bytes) else pth.encode()).hex(), content.hex() or "-"))
             b += ["KEEP %s" % ("both" if keep == "both" else "1" if keep else "0"), "CREATE %d" % (1 if create else 0)]
             if xcheck:
                 b.append("XCHECK %d" % xcheck)
@@ -491,6 +491,49 @@ def judge(ctx, p, res, model, stats):
 
 # ---------------------------------------------------------------- the catalogue of other faults
 
+BYTE_NAMES = [("latin1", b"caf\xe9.bin"), ("lone-continuation", b"a\x80b.bin"), ("overlong", b"\xc0\xaf.bin"),
+              ("utf8-multibyte", "caf\u00e9-\u4e16.bin".encode("utf-8"))]
+
+
+def path_literal(b):
+    """a string literal of the language denoting exactly the bytes b (hex sections for everything non-printable)"""
+    out = []
+    for c in b:
+        out.append(chr(c) if c in gen.PRINTABLE else "|%02x|" % c)
+    return ('"' + "".join(out) + '"').encode("ascii")
+
+
+def refused_input_name(ctx, d, stats, ntag, nm, src, keep):
+    """an input whose NAME is not valid UTF-8, existing or not: the argument parser refuses the command line (exit
+    status 2, message on stderr).  Oracle: a diagnostic, a non-zero exit status, no panic, no 'ok', no output."""
+    for exists in (True, False):
+        tag = "input-name-%s-%s" % (ntag, "present" if exists else "missing")
+        sd = os.path.join(d, "cat", "%s-%d" % (tag, keep)).encode()
+        os.makedirs(os.path.join(sd, b"out"))
+        ip = os.path.join(sd, nm[:-4] + b".rsyn")
+        if exists:
+            with open(ip, "wb") as f:
+                f.write(src)
+        args = [b"--color", b"never"] + ([b"-k"] if keep else []) + [b"--out-dir", os.path.join(sd, b"out"), ip]
+        rc, so, se = _run_one(common.RESYNTH, args, None)
+        ctx.count("catalogue:" + tag)
+        stats[tag] = stats.get(tag, 0) + 1
+        ctx.distinct((tag, keep))
+        rp = {"scenario": tag, "argv": [a.decode("latin-1") for a in args], "argv_encoding": "latin-1 (raw bytes)",
+              "keep": keep, "observed": {"rc": rc, "stdout": so[-600:], "stderr": se[-600:]}}
+        left = os.listdir(os.path.join(sd, b"out"))
+        if "panicked at" in se or rc < 0 or rc == 101:
+            ctx.fail("panic-on-io-failure", "%s: the process died rc=%s %s" % (tag, rc, se.strip()[:300]), rp)
+        elif rc == 0 and not (exists and left):
+            ctx.fail("exit-status-zero-after-io-failure", "%s: exit status 0 but nothing was compiled" % tag, rp)
+        elif rc != 0 and " ok" in so:
+            ctx.fail("success-claimed-for-incomplete-output", "%s: printed ok with exit status %d" % (tag, rc), rp)
+        elif rc != 0 and not (se.strip() or so.strip()):
+            ctx.fail("no-diagnostic", "%s: exit status %d without any message" % (tag, rc), rp)
+        elif rc != 0 and left and not keep:
+            ctx.fail("incomplete-output-left-behind", "%s: %r left" % (tag, left), rp)
+
+
 def catalogue(ctx, d, datadir):
     """creation / input / data-file failures and several inputs on one command line.
     Each scenario: (name, [inputs], arrangement) -> run once with and once without -k."""
@@ -621,6 +664,10 @@ def catalogue(ctx, d, datadir):
         # a path that names no file (a directory by construction): unreadable input, oracle only
         for nm, pth in (("dotdot", "path:@/.."), ("root", "path:/"), ("dot", "path:."), ("empty", "path:")):
             scenario("input-path-without-file-name-" + nm, [("a", S, ) + okS, ("m", pth, "fail", None)], None, keep)
+        scenario("input-name-multibyte-utf8", [("caf\u00e9-\u4e16\u754c", S, ) + okS,
+                                               ("manqu\u00e9", None, "fail", (True, None, {}, None))], None, keep)
+        for ntag, nm in BYTE_NAMES[:3]:
+            refused_input_name(ctx, d, stats, ntag, nm, S, keep)
         scenario("input-invalid-utf8-first-line", [("a", b"\xff\xfe\n" + S, "fail", (True, b"\xff\xfe\n" + S, mfiles(small), None))], None, keep)
         u8 = S + b"# \xc3\x28 broken\n" + b"u.client_dgram(\"after\");\n"
         scenario("input-invalid-utf8-after-packets", [("a", u8, "fail", (True, u8, mfiles(small), None))], None, keep)
@@ -643,6 +690,21 @@ def catalogue(ctx, d, datadir):
             if expect == "ok":
                 mf[present] = b"DATA" * 50
             scenario(tag, [("a", src, expect, (True, src, mf, None))], None, keep)
+        # file NAMES that are not ASCII / not valid UTF-8 (paths are bytes: OsStr::from_bytes): missing, a directory,
+        # and an existing readable file, which must be read correctly
+        for ntag, nm in BYTE_NAMES:
+            for kind in ("missing", "directory", "present"):
+                bpath = os.path.join(datadir.encode(), b"%s-%s%d-" % (ntag.encode(), kind.encode(), keep) + nm)
+                mf = dict(mfiles(small))
+                if kind == "directory":
+                    os.makedirs(bpath)
+                elif kind == "present":
+                    with open(bpath, "wb") as f:
+                        f.write(b"\xe9DATA\x00" * 40)
+                    mf[bpath] = b"\xe9DATA\x00" * 40
+                src = S + b'u.server_dgram(io::file(' + path_literal(bpath) + b'));\nu.client_dgram("afterwards");\n'
+                scenario("datafile-name-%s-%s" % (ntag, kind), [("a", src, "ok" if kind == "present" else "fail",
+                                                                  (True, src, mf, None))], None, keep)
         src = S + b'u.server_dgram(io::file("/tmp/a|00|b"));\n'
         scenario("datafile-nul-in-name", [("a", src, "fail", (True, src, mfiles(small), None))], None, keep)
         src = B + ('u.server_dgram(io::file("%s"));\n' % os.path.join(datadir, "nosuch.bin")).encode()
